@@ -129,8 +129,11 @@ CLAIMED = {
         text="Closed theorems on the wire model of calculate_highwater: the loop invariant (running flow before child k = total size of "
              "the wires alive there), hence the list of watermarks the code maximises over equals, element by element, the list of "
              "cuts (before the first child, bypassing wires + child highwater, after the last child), and the maximum dominates each "
-             "cut. The stream compares every node's real qubit_highwater with the port-level model and with the wire-level cut "
-             "specification at natural-number points.",
+             "cut. The quantities of that model are DEFINED through what is translated from derived_resources.py on every run "
+             "(GenHighwater.v: the two expressions of the loop body, the inflow / outflow port directions, the default resource "
+             "names; the remaining statements of calculate_highwater are checked one by one, fail closed). The stream compares every "
+             "node's real qubit_highwater (compiled tree read in the SOURCE order of children) with the port-level model and with the "
+             "wire-level cut specification at natural-number points and at points with negative parameters but non-negative sizes.",
         design_ref="DESIGN.md section 5 C16",
         note="Trusted: Coq kernel; the identification of port sums with wire sums (full single wiring, equal ends: C02) is an assumption of "
              "the abstract theorem, exercised by the stream; non-negative sizes.",
